@@ -172,8 +172,15 @@ def run(tier, v):
     vlib.tlc_must_pass(r, "PluginRegistry_exh")
     states += r.distinct
     trans += r.generated
-    for neg in NEGS:
-        vlib.tlc_must_fail(vlib.tlc("PluginRegistryMC", neg, workers=4, heap="2g", deadlock=False, timeout=600), neg)
+    import threading
+    vlib.spec_copy()
+    negres = {}
+
+    def run_neg(n):
+        negres[n] = vlib.tlc("PluginRegistryMC", n, workers=2, heap="2g", deadlock=False, timeout=600)
+    negths = [threading.Thread(target=run_neg, args=(n,)) for n in NEGS]     # negative controls run beside the case generation / driver
+    for t in negths:
+        t.start()
     d = vlib.scratch()
     cases = os.path.join(d, "cases.ndjson")
     g = vlib.tlc("PluginRegistryMC", "PluginRegistry_gen%s.cfg" % sfx, workers=1, heap="2g", deadlock=False, timeout=600,
@@ -190,6 +197,12 @@ def run(tier, v):
     if len(rows) != len(gen) or any(r_["c"] != g_ for r_, g_ in zip(rows, gen)):
         raise vlib.MachineryError("driver answered %d of %d cases / cases altered" % (len(rows), len(gen)))
     tr = validate(v, obs, rows)
+    for t in negths:
+        t.join()
+    for neg in NEGS:
+        if neg not in negres:
+            raise vlib.MachineryError("negative control %s did not run" % neg)
+        vlib.tlc_must_fail(negres[neg], neg)
     conc = overlapping(v, cases, d, thorough)
     states += conc["states"]
     trans += conc["transitions"]
